@@ -16,7 +16,7 @@ from vf import ref_sgml
 from vf import ref_types as R
 from vf import universe as U
 from vf.checks import c06
-from vf.core import HarnessError, Tally, private_xdg
+from vf.core import vacuous, HarnessError, Tally, private_xdg
 
 LEVEL = "exploration"
 UTC = datetime.timezone.utc
@@ -341,24 +341,24 @@ def run(ctx):
         jobs.append(("cfgall", ("stmtend", perm + (("investment", "ACTIVE"),))))
     tally = ctx.pmap(dispatch, jobs)
     if tally.counts.get("dry-runs", 0) < 900 or tally.counts.get("all-runs", 0) < 500:
-        raise HarnessError(f"vacuous: {tally.counts}")
+        vacuous(tally, f"vacuous: {tally.counts}")
     if not tally.fails:
         for o in ("dry-ok-stmt", "dry-ok-stmtend", "all-ok-stmt", "all-ok-stmtend"):
             if o not in tally.outcomes:
-                raise HarnessError(f"vacuous: {o} never observed")
+                vacuous(tally, f"vacuous: {o} never observed")
     tally.sample({"dryrun_argv": ["stmt", "--url", URL, "-u", "jdoe", "--dryrun", "--bankid", BANKID, "-C", "ch0-2", "-c", "cr0-1", "-C", "ch1-2", "-s", "20231231233000.005[-5.30:IST]"]})
     tally.sample({"all_acctinfors": [["checking", "PEND"], ["creditcard", "ACTIVE"], ["checking", "ACTIVE"]], "expect": "CHECKING ch2 and credit card cr1 requested, ch0 not"})
     cov = {
-        "evaluations": tally.counts["evaluations"],
-        "distinct_nontrivial": tally.counts["evaluations"] - 1,
+        "evaluations": tally.counts.get("evaluations", 0),
+        "distinct_nontrivial": tally.counts.get("evaluations", 0) - 1,
         "rule": "A: `stmt --dryrun` for all 729 assignments of {0,1,2} ids to 6 account types and `stmtend --dryrun` for all 243 over 5 types (options interleaved on the command line), "
         "each date option alone x 4 notations, all 27 combinations of 3 date texts over (-s,-e,-a), every non-empty subset of the 4 include flags (with and without dates); printed request read by the "
         "reference reader and compared with the expected request; B: `stmt --all` / `stmtend --all` against the scripted server for every account sequence of length <=2 over 6 types x 3 statuses"
         + (", every ACTIVE-only sequence of length 3 and a seed-chosen quarter of the length-3 multisets" if ctx.quick else " and every sequence of length 3 (5832)") +
         "; + the same for a nickname whose configuration already lists (other) accounts, bank id and broker id, over all orderings of one ACTIVE account per type with inactive ones in between; the statement "
         "request received must ask exactly the ACTIVE accounts; every run is a distinct command line / response",
-        "dry_runs": tally.counts["dry-runs"],
-        "all_runs": tally.counts["all-runs"],
+        "dry_runs": tally.counts.get("dry-runs", 0),
+        "all_runs": tally.counts.get("all-runs", 0),
         "exhaustive": True,
     }
     return {"tally": tally, "coverage": cov, "assumptions": ["--all is run with no accounts configured elsewhere (the interplay is not pinned down by the property)", "one bank id / broker id per response",
